@@ -4,6 +4,7 @@ import (
 	"errors"
 	"fmt"
 	"strings"
+	"time"
 
 	"verifharness/ev"
 	"verifharness/memtr"
@@ -182,6 +183,14 @@ func c02Exec(run *ev.Run, c ev.Case) {
 				for s := 1; s < 256; s++ {
 					one("status", reply, s)
 				}
+				for s := 1; s < 32; s++ {
+					one("status-after-lost", reply, s)
+				}
+			}
+			for arg := 1; arg < 16; arg++ {
+				if arg&7 != 0 {
+					one("zero-len-payload", 1, arg)
+				}
 			}
 		case "tag":
 			for reply := 1; reply <= 3; reply++ {
@@ -309,7 +318,7 @@ func c02Run(run *ev.Run, o c02One) {
 	e.BMC.Handler = refbmc.Chain(refbmc.Fixed(6, 0x37, 0, cfg.GUID[:]), refbmc.Fixed(6, 0x38, 0, []byte{1, 0x80, 0x14, 0x02, 0, 0, 0, 0}))
 	e.T.PoisonFn = func(i int) byte { return byte(i*31 + 7) }
 	ptypeOf := map[int]byte{1: 0x10, 2: 0x12, 3: 0x14}
-	delivered := 0
+	delivered, matched := 0, 0
 	var trueSID, fakeSID uint32
 	e.PreFilter = func(n int, req []byte) []byte {
 		if o.Kind == "mitm-sid" && len(req) >= 24 && (req[5]&0x3f == 0x12 || req[5]&0x3f == 0x14) {
@@ -340,6 +349,28 @@ func c02Run(run *ev.Run, o c02One) {
 			}
 		case "status":
 			p[1] = byte(o.Arg)
+		case "status-after-lost":
+			// the first copy of this reply is lost; the library sends its message again and that
+			// one is answered with the status
+			matched++
+			if matched == 1 {
+				return nil, nil
+			}
+			p[1] = byte(o.Arg)
+		case "zero-len-payload":
+			// Open Session Response whose algorithm payloads (mask in Arg&7) carry length byte 0 - the
+			// request-side wildcard notation; Arg&8: the algorithm byte behind it is zeroed as well
+			if len(p) < 36 {
+				return reply, nil
+			}
+			for axis, off := range []int{15, 23, 31} {
+				if o.Arg&(1<<axis) != 0 {
+					p[off] = 0
+					if o.Arg&8 != 0 {
+						p[off+1] = 0
+					}
+				}
+			}
 		case "tag":
 			p[0] += byte(o.Arg)
 		case "trunc":
@@ -444,7 +475,13 @@ func c02Run(run *ev.Run, o c02One) {
 	defer cancel()
 	var sess *bmc.V2Session
 	var err error
-	pv, st := safe(func() { sess, err = e.ST.NewV2Session(ctx, opts) })
+	var pv any
+	var st string
+	// whatever a handshake reply looks like, the call comes back (its context is bounded logically);
+	// a decoder that never returns would otherwise stall the whole run
+	hangGuard(run, 30*time.Second, func() ev.Case { return cs }, fmt.Sprintf("NewV2Session (mutation %s reply %d arg %d)", o.Kind, o.Reply, o.Arg), func() {
+		pv, st = safe(func() { sess, err = e.ST.NewV2Session(ctx, opts) })
+	})
 	run.Eval(1)
 	desc := fmt.Sprintf("auth alg %d kg=%v mutation %s reply %d arg %d pre %q", su.Auth, o.KG, o.Kind, o.Reply, o.Arg, o.Pre)
 	if o.Mix != 0 {
